@@ -358,6 +358,41 @@ def raise_callers():
     return out
 
 
+GUARDED = {
+    'tlslite/utils/rsakey.py': ['RSAKey._raw_public_key_op_bytes', 'RSAKey._raw_private_key_op_bytes', 'RSAKey._raw_pkcs1_verify',
+                                'RSAKey._raw_pkcs1_sign', 'RSAKey.EMSA_PSS_verify', 'RSAKey.RSASSA_PSS_verify', 'RSAKey.verify'],
+    'tlslite/utils/python_dsakey.py': ['Python_DSAKey.verify'],
+    'tlslite/keyexchange.py': ['FFDHKeyExchange.__init__', 'FFDHKeyExchange.calc_public_value', 'FFDHKeyExchange._normalise_peer_share',
+                               'FFDHKeyExchange.calc_shared_key', 'ECDHKeyExchange._non_zero_check', 'ECDHKeyExchange.calc_shared_key'],
+}
+
+
+def range_guards():
+    """Every `if` condition of the verification / key-agreement functions, as normalised source text, with
+    what the guarded branch does: (function, condition, 'raise' | 'return-false' | 'branch').  The range and
+    length guards the theorems rely on (s < n, 0 < r,s < q, 2 <= y < p-1, ...) are checked to be present by
+    the obligation range_guards_present."""
+    out = []
+    for rel, quals in sorted(GUARDED.items()):
+        tree = parse(rel)
+        for q in quals:
+            fd = find_def(tree, q)
+            if fd is None:
+                raise Refuse('guarded function %s not found in %s' % (q, rel))
+            cls = find_def(tree, q.rsplit('.', 1)[0])
+            fd = inline_tail_helpers(strip_doc(fd), cls)
+            for n in ast.walk(fd):
+                if isinstance(n, ast.If):
+                    b = n.body[0] if len(n.body) == 1 else None
+                    kind = 'branch'
+                    if isinstance(b, ast.Raise):
+                        kind = 'raise'
+                    elif isinstance(b, ast.Return) and isinstance(b.value, ast.Constant) and b.value.value is False:
+                        kind = 'return-false'
+                    out.append((q.split('.')[-1], ast.unparse(n.test), kind))
+    return out
+
+
 def rsa_state_accesses():
     """Every read/write of a mutable attribute of Python_RSAKey (an attribute assigned through
     self.<name> in a method other than __init__: the blinding pair) with whether it happens inside
@@ -461,6 +496,7 @@ class C10Tables(object):
         callers = raise_callers()
         fps = fingerprints()
         acc = rsa_state_accesses()
+        guards = range_guards()
         o = ['(* GENERATED by translator/units_c10.py from %s -- do not edit. *)' % REPO,
              'From Coq Require Import ZArith List Bool String.',
              'Import ListNotations.', 'Local Open Scope Z_scope.', 'Local Open Scope string_scope.', '',
@@ -490,6 +526,9 @@ class C10Tables(object):
               '   (helper, calling function, inside try/except TLSInternalError -> internal_error alert, #args) *)',
               'Definition raise_callers : list (string * string * bool * Z) := [',
               ';\n'.join('  (%s, %s, %s, %d)' % (sl(h), sl(f), b(t), n) for h, f, t, n in callers), '].', '',
+              '(* every `if` condition of the verification / key-agreement functions: (function, condition, effect) *)',
+              'Definition range_guards : list (string * string * string) := [',
+              ';\n'.join('  (%s, %s, %s)' % (sl(f), sl(t), sl(k)) for f, t, k in guards), '].', '',
               '(* python_rsakey.py Python_RSAKey: every access to the mutable blinding state:',
               '   (method, attribute, is a store, inside `with self._lock`) *)',
               'Definition rsa_state_accesses : list (string * string * bool * bool) := [',
